@@ -31,6 +31,7 @@ type Cfg struct {
 	StoreID  bool   `json:"id,omitempty"`      // StoreIdentityCIDs
 	MaxCid   uint64 `json:"maxcid,omitempty"`  // MaxIndexCidSize
 	ZeroEOF  bool   `json:"zeroeof,omitempty"` // ZeroLengthSectionAsEOF
+	NoIdx    bool   `json:"noidx,omitempty"`   // WithoutIndex (IndexCodec = CarIndexNone)
 	MaxSec   uint64 `json:"maxsec,omitempty"`  // MaxAllowedSectionSize (a READ limit: writers and resumption are not bound by it)
 }
 
@@ -67,6 +68,9 @@ func (c Cfg) Short() string {
 	}
 	if c.ZeroEOF {
 		s += "+zeof"
+	}
+	if c.NoIdx {
+		s += "+noidx"
 	}
 	return s
 }
@@ -111,6 +115,9 @@ func (c Cfg) Opts() []carv2.Option {
 	}
 	if c.MaxSec > 0 {
 		o = append(o, carv2.MaxAllowedSectionSize(c.MaxSec))
+	}
+	if c.NoIdx {
+		o = append(o, carv2.WithoutIndex())
 	}
 	return o
 }
